@@ -577,6 +577,13 @@ impl TDigestMut {
         };
         check_non_nan(min, "min")?;
         check_non_nan(max, "max")?;
+        // the counts size the allocations below: they must be backed by the remaining bytes
+        let (centroid_size, value_size) = if is_f32 { (8, 4) } else { (16, 8) };
+        if num_centroids > cursor.remaining() / centroid_size
+            || num_buffered > (cursor.remaining() - num_centroids * centroid_size) / value_size
+        {
+            return Err(Error::insufficient_data("centroids"));
+        }
         let mut centroids = Vec::with_capacity(num_centroids);
         let mut centroids_weight = 0u64;
         for _ in 0..num_centroids {
@@ -594,7 +601,9 @@ impl TDigestMut {
             check_non_nan(mean, "centroid mean")?;
             check_finite(mean, "centroid")?;
             let weight = check_nonzero(weight, "centroid weight")?;
-            centroids_weight += weight.get();
+            centroids_weight = centroids_weight
+                .checked_add(weight.get())
+                .ok_or_else(|| Error::deserial("total centroid weight overflows u64"))?;
             centroids.push(Centroid { mean, weight });
         }
         let mut buffer = Vec::with_capacity(num_buffered);
@@ -651,6 +660,12 @@ impl TDigestMut {
                 }
                 let num_centroids =
                     cursor.read_u32_be().map_err(make_error("num_centroids"))? as usize;
+                if num_centroids > cursor.remaining() / 16 {
+                    return Err(Error::insufficient_data_of(
+                        "compat double format",
+                        "centroids",
+                    ));
+                }
                 let mut total_weight = 0u64;
                 let mut centroids = Vec::with_capacity(num_centroids);
                 for _ in 0..num_centroids {
@@ -659,7 +674,9 @@ impl TDigestMut {
                     let weight = check_nonzero(weight, "centroid weight in compat double format")?;
                     check_non_nan(mean, "centroid mean in compat double format")?;
                     check_finite(mean, "centroid mean in compat double format")?;
-                    total_weight += weight.get();
+                    total_weight = total_weight
+                        .checked_add(weight.get())
+                        .ok_or_else(|| Error::deserial("total centroid weight overflows u64"))?;
                     centroids.push(Centroid { mean, weight });
                 }
                 Ok(TDigestMut::make(
@@ -693,6 +710,12 @@ impl TDigestMut {
                 cursor.read_u32_be().map_err(make_error("<unused>"))?;
                 let num_centroids =
                     cursor.read_u16_be().map_err(make_error("num_centroids"))? as usize;
+                if num_centroids > cursor.remaining() / 8 {
+                    return Err(Error::insufficient_data_of(
+                        "compat float format",
+                        "centroids",
+                    ));
+                }
                 let mut total_weight = 0u64;
                 let mut centroids = Vec::with_capacity(num_centroids);
                 for _ in 0..num_centroids {
@@ -701,7 +724,9 @@ impl TDigestMut {
                     let weight = check_nonzero(weight, "centroid weight in compat float format")?;
                     check_non_nan(mean, "centroid mean in compat float format")?;
                     check_finite(mean, "centroid mean in compat float format")?;
-                    total_weight += weight.get();
+                    total_weight = total_weight
+                        .checked_add(weight.get())
+                        .ok_or_else(|| Error::deserial("total centroid weight overflows u64"))?;
                     centroids.push(Centroid { mean, weight });
                 }
                 Ok(TDigestMut::make(
